@@ -308,4 +308,7 @@ func runC20(r *run) {
 			r.violate(violation{What: "the duration parser disagrees with time.ParseDuration on a string the standard parser accepts", Input: s, Expected: o2, Actual: o1})
 		}
 	}
+	// the formatter in a process started in a non-UTF-8 locale
+	envProbe(r, false, "dur", "LC_ALL=C", "LANG=C")
+	envProbe(r, false, "dur", "LANG=en_US.ISO-8859-1", "-LC_ALL")
 }
